@@ -70,6 +70,17 @@ if rc == 0:
             shutil.rmtree(rp, ignore_errors=True)
     finally:
         sh("git checkout -- .", cwd="/repo")
+# keep the outcome of earlier evaluations (a miss before a check was strengthened stays visible)
+try:
+    prevv = json.load(open(os.path.join(dst, "meta.json"))).get("verified_by_coordinator", {})
+    hist = prevv.get("earlier_evaluations", [])
+    if "detected" in prevv:
+        hist.append({"detected": prevv.get("detected"), "check_summary": prevv.get("check_summary"), "verif_commit": prevv.get("verif_commit")})
+    if hist:
+        res["earlier_evaluations"] = hist
+except Exception:
+    pass
+res["verif_commit"] = sh("git -C /verif rev-parse --short HEAD")[1].strip() + ("+dirty" if sh("git -C /verif status --porcelain -- harness bin")[1].strip() else "")
 shutil.copy(patch, os.path.join(dst, "patch.diff"))
 shutil.copy(demo, os.path.join(dst, "demo.rs"))
 meta = json.load(open(os.path.join(src, "meta.json")))
